@@ -18,7 +18,7 @@ ANCHORS = ["runlengtharray.py::RunLengthArray._get_position", "runlengtharray.py
            "runlengtharray.py::RunLengthArray.__getitem__", "mixin.py::NPSIndexable.__getitem__"]
 KINDS = ["int", "list", "array", "boolarray", "boollist", "rlmask", "cmpmask", "slice", "windows"]
 FLOOR_TAGS = ["k:" + k for k in KINDS] + ["step:+1", "step:+k", "step:-1", "step:-k", "bounds:oob", "bounds:in", "result:empty", "mask:allfalse", "mask:alltrue", "int:negative",
-                                          "kind:b", "kind:i", "kind:u", "kind:f", "index:readonly", "k:virtual", "virtual:2**53", "virtual:2**31", "receiver:subclass", "step:huge", "windows:narrow-dtype", "windows:len-exceeds-dtype", "index:2d", "rlmask:astype", "rlmask:invert", "rlmask:used-before", "index:not-C-contiguous"]
+                                          "kind:b", "kind:i", "kind:u", "kind:f", "index:readonly", "k:virtual", "virtual:2**53", "virtual:2**31", "receiver:subclass", "step:huge", "windows:narrow-dtype", "windows:len-exceeds-dtype", "index:2d", "rlmask:astype", "rlmask:invert", "rlmask:used-before", "index:not-C-contiguous", "rlmask:concat"]
 FLOOR_MONITORS = ["c15:compare", "c15:canonical", "inv:rla", "c15:arguments-unchanged"]
 FP_STRICT = True       # a floating-point event inside the library that the dense computation does not have is a violation (shard.FpMonitor)
 N_RANDOM = {"quick": 24000, "thorough": 300000}
@@ -198,6 +198,10 @@ def run(case):
             elif via == "and":
                 alt = np.arange(L) % 2 == 0
                 mask = RLA.from_array(m | alt) & RLA.from_array(m | ~alt)
+            elif via == "concat" and L >= 2:
+                # two masks joined end to end: the seam may lie inside a stretch of equal values (neighbouring runs with the same truth value)
+                k_ = 1 + (int(m.sum()) + L) % (L - 1)
+                mask = np.concatenate([RLA.from_array(m[:k_].copy()), RLA.from_array(m[k_:].copy())])
             elif via == "slice":
                 mask = RLA.from_array(np.concatenate([~m[:2], m, m[:1]]))[len(m[:2]):len(m[:2]) + L]
             else:
@@ -348,6 +352,10 @@ def gen_case(rng, tier, kind=None, dtype=None):
         if kind == "array":
             c["readonly"] = rng.random() < 0.3
             c["idtype"] = rng.choice(["int64", "int64", "int32", "intp", "int16", ">i8", ">i4"])
+            if rng.random() < 0.25 and "ishape" not in c:
+                # many more positions than the array has runs, in no particular order, carried by an unsigned type (differences of neighbours wrap)
+                c["idx"] = [rng.randint(0, L - 1) for _ in range(rng.randint(8, 40))]
+                c["idtype"] = rng.choice(["uint8", "uint16", "uint32", "uint64"])
         return c
     if kind in ("boolarray", "boollist", "rlmask"):
         p = rng.choice([0.0, 0.5, 0.5, 1.0])
@@ -357,7 +365,7 @@ def gen_case(rng, tier, kind=None, dtype=None):
             m = [rng.random() < p for _ in range(L)]
         c = mk_case(dtype, vals, kind, m, readonly=(kind == "boolarray" and rng.random() < 0.3))
         if kind == "rlmask" and rng.random() < 0.5:
-            c["via"] = rng.choice(["astype", "astype", "invert", "and", "slice"])      # masks that are themselves results of run-length operations
+            c["via"] = rng.choice(["astype", "astype", "invert", "and", "slice", "concat", "concat"])      # masks that are themselves results of run-length operations
             c["codetype"] = rng.choice(["int64", "uint8", "int8", "float64"])
         if kind == "rlmask" and rng.random() < 0.4:
             c["prior"] = True
